@@ -19,7 +19,7 @@ PROPERTY = "C19"
 
 META = {
     "bounds": {
-        "quick": "15 probes x every single history item (23) + 120 VERIF_SEED-drawn histories of 2-3 items; history values hv (16 bit) and probe value pv (16 bit) symbolic; each job in a fresh process, probe run before and after the history; 8 probes with hand-derived expected output x every history item with the history run first (process never saw the probe)",
+        "quick": "17 probes x every single history item (24) + 120 VERIF_SEED-drawn histories of 2-3 items; history values hv (16 bit) and probe value pv (16 bit) symbolic; each job in a fresh process, probe run before and after the history; 8 probes with hand-derived expected output x every history item with the history run first (process never saw the probe)",
         "thorough": "15 probes x every history of <= 2 items + 300 drawn histories of 3",
     },
     "outside": ["histories longer than 3 assemblies", "state outside the Python process (files are virtual)"],
@@ -35,6 +35,7 @@ MAPSRC = ".map identifier=1 bank_range=0x00, 0x3f addr_range=0x0000, 0xffff mask
 # history items: (rom type, source, files)
 HISTORY = {
     "valid": ("low", "*=0x8000\nstart:\n.db hv\n.dl start\n", {}),
+    "valid-high-bank40": ("high", "*=0x408000\nh40:\n.dw hv\n.dl h40\n*=0x7D8000\n.db 1\n", {}),
     "valid-high": ("high", "*=0xC08000\nstart:\n.dw hv\n.dl start\n", {}),
     "fail-node-error": ("low", "*=0x8000\n.db 1\nlda.w nosuch\n.db 2\n", {}),
     "fail-nested": ("low", "*=0x8000\n{\n{\n.macro m(a) {\n.dw a, nosuch\n}\nm(hv)\n}\n}\n", {}),
@@ -74,6 +75,9 @@ PROBES = {
     "own-include": ("low", "*=0x8000\n.include 'p.s'\nafter:\n.dl after\n", {"p.s": "lda.w #pv\n"}),
     "own-ips": ("low", "*=0x8000\n.db pv\n.include_ips 'p.ips', 0\n", {"p.ips": b"PATCH\x00\x01\x00\x00\x02xyEOF"}),
     "high": ("high", "*=0xC10000\nh:\n.dw pv\n.dl h\n", {}),
+    # positions in work RAM under HiROM (refused / relocated): the answer may not depend on which banks were looked up before
+    "high-ram-refused": ("high", "*=0x7E2000\n.db pv\n", {}),
+    "high-ram-reloc": ("high", "*=0xC08000\n@=0x7E2000\nr:\n.dl r\n.db pv\n*=0x7F0000\n", {}),
     "lorom-offset": ("low", "*=0x018000\n.db pv\n*=0x001000\n.db 2\n", {}),
     "own-map": ("low", ".map identifier=1 bank_range=0x10, 0x1f addr_range=0x8000, 0xffff mask=0x8000\n*=0x108000\nq:\n.dl q\n", {}),
     "scopes": ("low", "*=0x8000\n.scope ns {\nl:\n.db pv\n}\n.for i := 0, 2 {\nl:\n.db i\n}\n{\nl:\n.dl l\n}\n.dl ns.l\n", {}),
